@@ -546,7 +546,14 @@ fn case_iterator_outlives_db_in_memory(out: &mut CaseOut, seed: u64, idx: u64) {
     let _ = it.seek_to_first();
     drop(db);
     // another instance on the same path
-    let second = { let _g = watch::enter("open(second)"); DB::open(opts()) };
+    // (a refused attempt must not loosen the lock for the next one: up to three attempts)
+    let mut second = { let _g = watch::enter("open(second)"); DB::open(opts()) };
+    for _ in 0..2 {
+        if second.is_ok() {
+            break;
+        }
+        second = { let _g = watch::enter("open(second)"); DB::open(opts()) };
+    }
     let refused = second.is_err();
     if let Ok(db2) = &second {
         for round in 0..2 {
